@@ -158,7 +158,7 @@ def fixedModel : Bool := true
 * `tr <id> name=<scenario> init=<ns> max=<ns>`
 * `ev <id> k=<n> t=<µs> e=<kind> iid=<i> dn=<dn> ...` with kinds
   `enter`, `run names= res=ok|err|panic`, `sig s=0|1 res=ok|panic`, `ctxdone`, `exit how=nil|ctx|other panic=0|1`,
-  `settled ok= why=`, `cancelreq`, `stopped ok=`, `quiesced`, `fin`
+  `settled ok= why=`, `window ..` (cancel-inside-the-back-off-window scenarios), `cancelreq`, `stopped ok=`, `quiesced`, `fin`
 * `end <id>`
 
 Two things happen per trace.  (a) The Spec clauses of C18 are evaluated on the event log itself (no model):
@@ -195,6 +195,7 @@ structure St where
   P : Params := {}
   evs : Array Ev := #[]
   cancelReq : Bool := false
+  tCancel : Nat := 0
   capped : Bool := false
   recs : List Rec := []               -- every instance, newest first
   groups : List (DN × List String) := []   -- (parent dn, group) of the parent's current incarnation
@@ -308,7 +309,7 @@ def specEv (st : St) (kind : String) (iid : Nat) (dn : DN) (t : Nat) (fs : List 
   let id := st.id
   match kind with
   | "enter" =>
-    let st := if st.quiesced then setV st s!"spec {id} start-after-stop {showDN dn} was started after the supervisor context had been cancelled and everything had stopped" else st
+    let st := if st.quiesced then setV st s!"spec {id} start-after-stop {showDN dn} was started (instance {iid}) {(t - st.tCancel) / 1000} ms after the supervisor context had been cancelled, when everything had stopped and stayed quiet (scenario {st.name})" else st
     let st := match latest st dn with
       | none => st
       | some p =>
@@ -354,7 +355,7 @@ def specEv (st : St) (kind : String) (iid : Nat) (dn : DN) (t : Nat) (fs : List 
         let d := match st.recs.find? (fun r => r.iid = i) with | some r => showDN r.dn | none => "?"
         setV st s!"spec {id} group-not-cancelled {who} died but the context of {d} (instance {i}), which belongs to it or to its group, was never cancelled"
       | [] => st
-  | "cancelreq" => { st with cancelReq := true }
+  | "cancelreq" => { st with cancelReq := true, tCancel := t }
   | "stopped" =>
     if (kv fs "ok") != some "1" then setV st s!"spec {id} not-stopped services were still running long after the supervisor context was cancelled ({(kv fs "live").getD "?"} left)" else st
   | "quiesced" => { st with quiesced := true }
